@@ -112,7 +112,11 @@ def run(ctx, res):
     cases.append({"name": "faulty-ops-twins", "faulty": True, "schemaFiles": ops_schema, "opFiles": [{"rel": r, "text": t} for r, t in twins], "config": CONFIG,
                   "runs": 4 if ctx.quick else 12, "perms": [], "schemaOutput": "gen/schema.d.ts", "schemaSource": "../gen/schema.js"})
     bad_schema = ("type Query { a(x: Nope1, y: Nope2, z: Nope3): Gone1 b: Gone2 c: Gone3 @u1 @u2 @u3 }\n"
-                  "type T implements I1 & I2 & I3 { f: Int }\nunion U = M1 | M2 | M3\ninput In { p: Out1 q: Out2 r: Out3 }\n")
+                  "type T implements I1 & I2 & I3 { f: Int }\nunion U = M1 | M2 | M3\ninput In { p: Out1 q: Out2 r: Out3 }\n"
+                  # an interface that itself implements several interfaces, and implementers that omit ALL of them (several diagnostics at one site)
+                  "interface Node { id: ID }\ninterface Timestamped { at: Int }\ninterface Owned { by: ID }\ninterface Tagged { tag: ID }\n"
+                  "interface Document implements Node & Timestamped & Owned & Tagged { id: ID at: Int by: ID tag: ID }\n"
+                  "type Memo implements Document { id: ID at: Int by: ID tag: ID }\ninterface Note implements Document { id: ID at: Int by: ID tag: ID }\n")
     cases.append({"name": "faulty-schema", "faulty": True, "schemaFiles": [{"rel": "schema/s0.graphql", "text": bad_schema}],
                   "opFiles": [{"rel": "ops/a.graphql", "text": "query Q { a }\n"}], "config": CONFIG,
                   "runs": 4 if ctx.quick else 12, "perms": [], "schemaOutput": "gen/schema.d.ts", "schemaSource": "../gen/schema.js"})
